@@ -101,6 +101,7 @@ Fixpoint step_targets (steps : list sx) : list bytes :=
   match steps with
   | [] => []
   | SB t :: r => t :: step_targets r
+  | SL [SN 1; SB t] :: r => t :: step_targets r    (* a walk whose consumer writes into the stats it receives *)
   | _ :: r => step_targets r
   end.
 
@@ -216,33 +217,75 @@ Fixpoint after_sep (s : bytes) : bytes :=
    hard-link names; absolute symlink targets re-rooted); no error; and the whole sequence is
    strictly ascending in path order.  A sub-root whose name merely starts like the target, or of
    which the target's first component is a prefix, contributes NOTHING. *)
-Definition subdir_judge (zs : list (subdir * list (bytes * lrec))) (target : bytes)
-                        (cbs : list (bytes * stat)) (err : N) : sx * bool :=
-  let m := match walk_subdirs (map fst zs) target with
-           | None => SL [SL []; SN 2]
-           | Some (out, e) => SL [SL (map enc_cb out); SN (if e then 1 else 0)]
-           end in
+Definition subdir_model (ds : list subdir) (target : bytes) : sx :=
+  match walk_subdirs ds target with
+  | None => SL [SL []; SN 2]
+  | Some (out, e) => SL [SL (map enc_cb out); SN (if e then 1 else 0)]
+  end.
+
+Definition subdir_plain (zs : list (subdir * list (bytes * lrec))) : bool :=
   let names := map (fun z => sd_name (fst z)) zs in
-  let plain := forallb wf_name_b names && nodup_b names
-               && forallb (fun z => st_is_dir (sd_stat (fst z))) zs in
+  forallb wf_name_b names && nodup_b names
+  && forallb (fun z => st_is_dir (sd_stat (fst z))) zs.
+Definition subdir_wf (zs : list (subdir * list (bytes * lrec))) : bool :=
+  forallb (fun z => wf_tree_b (sd_tree (fst z))) zs.
+
+Definition subdir_expected (zs : list (subdir * list (bytes * lrec))) (target : bytes) : list stat :=
   let first := before_sep target in
   let tc := spec_target (after_sep target) in
-  let expected :=
-    flat_map (fun z => if bytes_eqb first [] || bytes_eqb first (sd_name (fst z))
-                       then sd_stat (fst z)
-                            :: map (prefix_stat (sd_name (fst z))) (ref_walk (snap_at (snd z) tc))
-                       else [])
-             (fold_right insert_sdn [] zs) in
-  (m, negb plain
-      || (N.eqb err 0 && cb_paths_ok cbs
-          && forallb (fun z => wf_tree_b (sd_tree (fst z))) zs
-          && sx_eqb (SL (map enc_stat expected)) (SL (map (fun e => enc_stat (snd e)) cbs))
-          && sorted_b (map (fun e => st_path (snd e)) cbs))).
+  flat_map (fun z => if bytes_eqb first [] || bytes_eqb first (sd_name (fst z))
+                     then sd_stat (fst z)
+                          :: map (prefix_stat (sd_name (fst z))) (ref_walk (snap_at (snd z) tc))
+                     else [])
+           (fold_right insert_sdn [] zs).
+
+(* the callbacks are exactly [expected], no error, callback path = Stat.Path, strictly ascending *)
+Definition listing_ok (expected : list stat) (cbs : list (bytes * stat)) (err : N) : bool :=
+  N.eqb err 0 && cb_paths_ok cbs
+  && sx_eqb (SL (map enc_stat expected)) (SL (map (fun e => enc_stat (snd e)) cbs))
+  && sorted_b (map (fun e => st_path (snd e)) cbs).
+
+Definition subdir_judge (zs : list (subdir * list (bytes * lrec))) (target : bytes)
+                        (cbs : list (bytes * stat)) (err : N) : sx * bool :=
+  (subdir_model (map fst zs) target,
+   negb (subdir_plain zs) || (subdir_wf zs && listing_ok (subdir_expected zs target) cbs err)).
+
+(* NESTED composite (kind 0906): SubDirFS over ONE sub-root (Stat ost) whose FS is the SubDirFS over zs.
+   Model: the outer subDirFS.Walk applied to the inner model walk (first component selects, the inner
+   callbacks are rewritten with the outer name).  Specification (proper outer name, directory Stat,
+   proper inner sub-roots): outer Stat, then the inner SPECIFICATION listing for the remainder of the
+   target, prefixed with the outer name - on every walk, whatever earlier consumers did with the stats
+   they were handed. *)
+Definition nested_judge (ost : stat) (zs : list (subdir * list (bytes * lrec))) (target : bytes)
+                        (cbs : list (bytes * stat)) (err : N) : sx * bool :=
+  let oname := st_path ost in
+  let first := before_sep target in
+  let rest := after_sep target in
+  let sel := bytes_eqb first [] || bytes_eqb first oname in
+  let m :=
+    if negb (bytes_eqb (base oname) oname) then SL [SL []; SN 2]
+    else match walk_subdirs (map fst zs) [] with
+         | None => SL [SL []; SN 2]                     (* the inner constructor refuses, whatever the target *)
+         | Some _ =>
+           if negb sel then SL [SL []; SN 0]
+           else if negb (st_is_dir ost) then SL [SL []; SN 1]
+           else match walk_subdirs (map fst zs) rest with
+                | None => SL [SL []; SN 2]
+                | Some (out, e) =>
+                  SL [SL (map enc_cb ((oname, ost)
+                                      :: map (fun c => (join2 oname (fst c), sub_rewrite oname (snd c))) out));
+                      SN (if e then 1 else 0)]
+                end
+         end in
+  let plain := wf_name_b oname && st_is_dir ost && subdir_plain zs in
+  let expected := if sel then ost :: map (prefix_stat oname) (subdir_expected zs rest) else [] in
+  (m, negb plain || (subdir_wf zs && listing_ok expected cbs err)).
 
 (* kind 0902: input = (((dirstat view extra-links [rootform]) ...) target); impl = ((snapshot ...) callbacks err) *)
 Definition run_0902 (input impl : sx) : sx :=
   match input, impl with
-  | SL [SL sdsx; SB target], SL [SL snapsx; cbsx; SN err] =>
+  | SL [SL sdsx; SB target], SL [SL snapsx; cbsx; SN err]
+  | SL [SL sdsx; SB target; SN _], SL [SL snapsx; cbsx; SN err] =>   (* optional flag: the consumer writes into the stats *)
     match omap dec_sd_in sdsx, omap (sx_list dec_raw) snapsx, sx_list dec_cb cbsx with
     | Some sts, Some snaps, Some cbs =>
       match zip_sds sts snaps with
@@ -272,6 +315,26 @@ Definition run_0905 (input impl : sx) : sx :=
         end
       end
     | _, _, _ => v_malformed
+    end
+  | _, _ => v_malformed
+  end.
+
+(* kind 0906: input = (outer-dirstat ((dirstat view extra-links [rootform]) ...) (step ...));
+   impl = ((snapshot ...) ((callbacks err) ...)): walk history on ONE nested composite *)
+Definition run_0906 (input impl : sx) : sx :=
+  match input, impl with
+  | SL [ostx; SL sdsx; SL steps], SL [SL snapsx; SL outsx] =>
+    match dec_stat ostx, omap dec_sd_in sdsx, omap (sx_list dec_raw) snapsx, omap dec_walk_out outsx with
+    | Some ost, Some sts, Some snaps, Some outs =>
+      match zip_sds sts snaps with
+      | None => v_malformed
+      | Some zs =>
+        match judge_all (nested_judge ost zs) (step_targets steps) outs with
+        | None => v_malformed
+        | Some (ms, sp) => verdict (SL ms) (SL outsx) sp (SL [])
+        end
+      end
+    | _, _, _, _ => v_malformed
     end
   | _, _ => v_malformed
   end.
